@@ -49,6 +49,7 @@ fn handler(name: &str) -> Option<Handler> {
         "lex" => lex::lex,
         "parse" => lex::parse,
         "parse-kinds" => lex::parse_kinds,
+        "parse-kinds-uncached" => lex::parse_kinds_uncached,
         "unify" => unify::unify,
         "load" => load::load,
         "compile" => compile::compile,
